@@ -61,7 +61,7 @@ def check(model, R, tier):
     for q, why in problems:
         R.incomplete_at('C11.WRAPPER-PURE', q, why)
     # ---- KERNEL-PURE
-    kfuncs = [f for m in KMODS for f in model.module_functions(m) if not f.inlined_everywhere]
+    kfuncs = [f for m in KMODS for f in model.module_functions(m)]
     R.rule('C11.KERNEL-PURE', 'no kernel of cpu_ops.py / conv_tools.py performs an in-place effect on a value that may alias one of its parameters (may-alias abstract interpretation, '
                               'interprocedural through repo callees)', floor=95)
     pure_scan(model, R, 'C11.KERNEL-PURE', kfuncs)
@@ -84,7 +84,7 @@ def check(model, R, tier):
             del model.funcs[q]
     # ---- WRITERS of .data, package wide
     R.rule('C11.WRITERS', 'Tensor.data is written only by the constructor, optimizer steps, nn.init fillers and batch_norm running statistics', floor=12)
-    for fn in [f_ for f_ in model.funcs.values() if not f_.inlined_everywhere]:
+    for fn in model.live_funcs():
         if fn.mod.modname == 'synapgrad.visual.graph':
             continue
         for n in body_walk(fn.node):
@@ -171,7 +171,7 @@ def check(model, R, tier):
     E.check_reset(model, R, 'C11')
     # ---- DET
     R.rule('C11.DET', 'no op wrapper or kernel reads a random source or a clock', floor=150)
-    scope = [f for f in model.funcs.values() if f.mod.modname in KMODS + ('synapgrad.functional', 'synapgrad.nn.functional')]
+    scope = [f for f in model.live_funcs() if f.mod.modname in KMODS + ('synapgrad.functional', 'synapgrad.nn.functional')]
     for f in scope:
         hits = []
         for c in body_walk(f.node):
